@@ -314,6 +314,8 @@ class Sim:
         self.wdelay = 0
         self.req = None       # (id, timeout, tx, deadline / until)
         self.until = 0
+        self.nl = 1           # listener notifications so far (the initial Disabled)
+        self.nc = 0           # completions so far
 
     def connected(self):
         return self.ph in ('Idle', 'Writing', 'InFlight')
@@ -321,12 +323,18 @@ class Sim:
     def listens(self):
         return self.ph in ('WaitEnabled', 'Connecting', 'Idle', 'Waiting')
 
-    def _drop(self):
+    def _drop(self, listener=True):
+        if listener:
+            self.nl += 1
+        elif self.ph in ('Writing', 'InFlight'):
+            self.nc += 1
+        self.nc += len([c for c in self.q + self.blocked if c[0] == 'S'])
         self.ph = 'Done'
         self.q = []
         self.blocked = []
 
     def _loop_top(self):
+        self.nl += 1
         self.ph = 'Connecting' if self.enabled else 'WaitEnabled'
 
     def _end(self, e):
@@ -335,10 +343,13 @@ class Sim:
         elif e == 'Disabled':
             self._loop_top()
         else:
+            self.nl += 1
             self.ph = 'Waiting'
             self.until = self.now + self.cfg['rmin']
 
     def _finish(self, cl):
+        self.nc += 1
+        self.ph = 'Idle'
         if cl in ('Io', 'BadFrame'):
             self._end(cl)
         elif cl == 'Timeout':
@@ -378,13 +389,14 @@ class Sim:
                     self._end('Disabled')
         else:
             if c[0] == 'S':
-                pass
+                self.nc += 1
             elif c[0] == 'X':
                 self._drop()
             else:
                 self._setting(c)
                 if self.ph == 'WaitEnabled':
                     if self.enabled:
+                        self.nl += 1
                         self.ph = 'Connecting'
                 elif not self.enabled:
                     self._loop_top()
@@ -430,12 +442,18 @@ class Sim:
                     self.q.append(s)
                 elif s[-1] != 'x' or t == 'X':
                     self.blocked.append(s)
+                elif t == 'S':
+                    self.nc += 1
+            elif self.handles > 0 and t == 'S':
+                self.nc += 1
         elif t == 'H':
             self.handles = max(0, self.handles - 1)
         elif t == 'A':
-            self._drop()
+            if self.ph != 'Done':
+                self._drop(listener=False)
         elif t in ('CO', 'CE'):
             if self.ph == 'Connecting':
+                self.nl += 1
                 if t == 'CO':
                     self.ph = 'Idle'
                     self.tc = 0
